@@ -71,6 +71,10 @@ impl S3PartitionStorage {
                         let keys_in_patition = get_keys_by_filter(&db, &|key, _v| {
                             get_patirion_from_key(key) == partition
                         });
+                        #[cfg(nundb_verif)]
+                        crate::verif_hooks::record_key_order(
+                            keys_in_patition.iter().map(|(k, _)| k.clone()).collect(),
+                        );
                         let mut file_buffer: BytesMut =
                             BytesMut::with_capacity(OP_RECORD_SIZE * 10);
                         for (key, value) in keys_in_patition {
